@@ -156,6 +156,29 @@ fn ev_float<F: Fl>(o: Out<Interval<F>>) -> Result<(u8, f64, f64), String> {
     }
 }
 
+/// kind clause alone, for data outside the conditioning domain of the numeric relations (constant samples,
+/// ill-conditioned or extreme magnitudes): whatever the bounds, the variant must be the requested one
+fn kind_only<F: Fl>(name: &str, c: &Case, obs: &mut Obs, eval: &dyn Fn(&Conf) -> Out<Interval<F>>) -> PResult {
+    for kind in 0u8..3 {
+        for l in [c.l_one.0, LEVEL_GRID[c.i1]] {
+            let conf = Conf::new(kind, l);
+            obs.eval();
+            match eval(&conf) {
+                Out::Ok(i) => {
+                    let r = bounds(&i);
+                    ensure!(r.0 == kind, format!("C10/{name}/kind"), "{name} {conf:?}: kind of the result {i:?} is {} (0 two-sided, 1 bounded below only, 2 bounded above only)", r.0);
+                    ensure!(!r.1.is_nan() && !r.2.is_nan(), format!("C10/{name}/nan"), "{name} {conf:?}: NaN bound in {i:?}");
+                    ensure!(r.1 <= r.2, format!("C10/{name}/inverted"), "{name} {conf:?}: {i:?}");
+                    obs.class(&format!("kind-only/{name}"));
+                }
+                Out::Err(_) => {}
+                Out::Panic(p) => return crate::engine::fail(format!("C10/{name}/panic"), format!("{name} {conf:?}: {p}")),
+            }
+        }
+    }
+    Ok(())
+}
+
 fn float_producers<F: Fl>(c: &Case, obs: &mut Obs) -> PResult {
     let a: Vec<F> = c.a.data.iter().map(|x| F::from64(x.0)).collect();
     let b: Vec<F> = c.b.data.iter().map(|x| F::from64(x.0)).collect();
@@ -178,7 +201,8 @@ fn float_producers<F: Fl>(c: &Case, obs: &mut Obs) -> PResult {
         };
         relations(&p, c, obs)?;
     } else {
-        obs.exclude("arithmetic: sample outside the conditioning domain");
+        obs.exclude("arithmetic: sample outside the conditioning domain (kind clause only)");
+        kind_only::<F>(&format!("arithmetic/{}", F::NAME), c, obs, &|cf| call(|| Arithmetic::<F>::ci(cf.get(), &a)))?;
     }
     // paired (truncate to the common length)
     let m = a.len().min(b.len());
@@ -200,6 +224,8 @@ fn float_producers<F: Fl>(c: &Case, obs: &mut Obs) -> PResult {
             rank_point: None,
         };
         relations(&p, c, obs)?;
+    } else if m >= 2 {
+        kind_only::<F>(&format!("paired/{}", F::NAME), c, obs, &|cf| call(|| Paired::<F>::ci(cf.get(), &ap, &bp)))?;
     }
     // unpaired
     let rb = MeanRef::new(&c.b.v64());
@@ -224,6 +250,8 @@ fn float_producers<F: Fl>(c: &Case, obs: &mut Obs) -> PResult {
             rank_point: None,
         };
         relations(&p, c, obs)?;
+    } else {
+        kind_only::<F>(&format!("unpaired/{}", F::NAME), c, obs, &|cf| call(|| Unpaired::<F>::ci(cf.get(), &a, &b)))?;
     }
     // geometric
     let logs: Vec<f64> = pz.iter().map(|x| x.ln().to64()).collect();
@@ -400,8 +428,19 @@ pub fn strategy(max_n: usize) -> impl Strategy<Value = Case> {
             gen::level_hi(),
             0usize..LEVEL_GRID.len(),
             0usize..LEVEL_GRID.len(),
+            // 12 %: some of the samples are constant (zero variance: degenerate intervals, NaN degrees of freedom)
+            prop_oneof![22 => Just(0u8), 3 => 1u8..8],
         )
-            .prop_map(|(a, b, p, n, r, qm, l_one, i, j)| {
+            .prop_map(|(mut a, mut b, mut p, n, r, qm, l_one, i, j, constant)| {
+                for (bit, s) in [(1u8, &mut a), (2, &mut b), (4, &mut p)] {
+                    if constant & bit != 0 {
+                        let v = s.data[0];
+                        for x in s.data.iter_mut() {
+                            *x = v;
+                        }
+                        s.shape = "constant".into();
+                    }
+                }
                 let k = ((r as u128 * (n as u128 + 1)) >> 64) as u64;
                 let (i1, i2) = if i <= j { (i, j) } else { (j, i) };
                 Case { a, b, p, n, k, q: X(qm as f64 / 1000.0), l_one: X(l_one), i1, i2 }
@@ -411,7 +450,7 @@ pub fn strategy(max_n: usize) -> impl Strategy<Value = Case> {
 
 pub fn run(run: &mut Run) {
     run.technique = "proptest random search with shrinking; relational oracle over pairs of calls on the same input: one-sided(L) vs two-sided(2L-1), nesting in the level, containment of the point estimate, kind of the result".into();
-    run.rule = "for each generated input (two samples, a positive sample, counts (n,k), quantile q; f32/f64) every producer (arithmetic, geometric, harmonic, paired, unpaired, Wilson, Wald, quantile ranks and elements) is evaluated at a one-sided level L in (1/2,1), at two-sided 2L-1, and at a pair of grid levels >= 0.01 apart for all three kinds; non-trivial = Ok results on both sides of a relation; distinct by input hash and levels".into();
+    run.rule = "for each generated input (two samples, a positive sample, counts (n,k), quantile q; f32/f64) every producer (arithmetic, geometric, harmonic, paired, unpaired, Wilson, Wald, quantile ranks and elements) is evaluated at a one-sided level L in (1/2,1), at two-sided 2L-1, and at a pair of grid levels >= 0.01 apart for all three kinds; 12 % of the inputs have constant samples, for which (as for any sample outside the conditioning domain) the kind clause alone is checked; non-trivial = Ok results on both sides of a relation; distinct by input hash and levels".into();
     crate::meanref::selftest_into(run);
     let (cases, shards, max_n) = match run.tier {
         crate::engine::Tier::Quick => (24_000u32, 32usize, 400usize),
@@ -421,15 +460,20 @@ pub fn run(run: &mut Run) {
     run.par(shards, |shard, obs| {
         crate::engine::prop_on(obs, "random", cases / shards as u32, crate::engine::mix(seed, "shard", shard as u64), strategy(max_n), case);
     });
+    for p in ["unpaired/f64", "unpaired/f32", "arithmetic/f64"] {
+        run.require_class(&format!("kind-only/{p}"));
+    }
     for p in ["arithmetic/f32", "arithmetic/f64", "paired/f64", "unpaired/f32", "geometric/f64", "harmonic/f32", "harmonic/f64", "proportion_wilson", "proportion_wald", "quantile_ranks", "quantile_elements"] {
         run.require_class(&format!("producer/{p}"));
     }
     run.assumptions.push("slack for t-based producers: 2 se dc(dof, level) with dc the quantile envelope of DESIGN §4.3, plus a few ulps of the bound; proportions 1e-13; ranks equal, or adjacent only where p n is within 1e-9 max(1,n) of an integer".into());
     run.assumptions.push("harmonic is restricted to inputs whose reciprocal-space interval stays > 0 at the highest level used (the domain C05 states)".into());
+    crate::props::history::add(run, "C10", &crate::props::history::ALL, 3_000, 200_000);
 }
 
 pub fn replay(sub: &str, v: &Value, obs: &mut Obs) -> Option<PResult> {
     Some(match sub {
+        "history" => crate::props::history::case(&de(v), obs),
         "random" => case(&de(v), obs),
         _ => return None,
     })
